@@ -14,7 +14,7 @@ from copy import deepcopy
 from dataclasses import dataclass
 from itertools import chain, count
 from numbers import Number
-from typing import TYPE_CHECKING, Any, Literal
+from typing import TYPE_CHECKING, Any, Literal, Optional
 
 import numpy as np
 from typing_extensions import Self
@@ -254,13 +254,22 @@ class SequentialMode:
         ]
 
     # TODO: Add unit tests
-    def create_params(self, dim_names: Mapping[str, str]) -> "xr.DataArray":
+    def create_params(
+        self,
+        dim_names: Mapping[str, str],
+        processor: Optional["Processor"] = None,
+    ) -> "xr.DataArray":
         """Create an xarray DataArray representing the sequence of parameter steps.
 
         Parameters
         ----------
         dim_names : Mapping[str, str]
             A mapping of parameter keys to their corresponding dimension names for xarray.
+        processor : Processor, optional
+            Processor providing the configured (default) value of each parameter.
+            When provided, each parameter is stepped through its values one
+            at a time while the other parameters keep their configured values,
+            exactly like in 'get_parameters_item'.
 
         Returns
         -------
@@ -275,7 +284,27 @@ class SequentialMode:
         }
         params_names = [dim_names[key] for key in all_steps]
 
-        params_sequential_list = list(zip(*all_steps.values(), strict=False))
+        if processor is None:
+            params_sequential_list = list(zip(*all_steps.values(), strict=False))
+        else:
+
+            def _to_hashable(value):
+                if isinstance(value, list | tuple | np.ndarray):
+                    return tuple(_to_hashable(el) for el in value)
+                return value
+
+            params_defaults = {
+                key: _to_hashable(processor.get(key)) for key in all_steps
+            }
+
+            params_sequential_list = []
+            for step in self.enabled_steps:
+                for value in step:
+                    row = {**params_defaults, step.key: _to_hashable(value)}
+                    params_sequential_list.append(
+                        tuple(row[key] for key in all_steps)
+                    )
+
         params_sequential_with_index = [
             (idx, *el) for idx, el in zip(count(), params_sequential_list)
         ]
